@@ -33,7 +33,7 @@ func runC11(w *World) {
 	if passive {
 		dir = DirIn
 	}
-	s := NewStd1(w, Std1Opts{Dir: DirOut, Passive: passive, LocalHold: 90, RemoteHold: 90, IdleHold: ih, Retry: cr})
+	s := NewStd1(w, Std1Opts{Dir: DirOut, Passive: passive, LocalHold: 90, RemoteHold: 90, IdleHold: ih, Retry: cr, Vary: true})
 	if s == nil {
 		return
 	}
